@@ -54,8 +54,16 @@ def rand_comp(rng, n):
     return out
 
 
-def rand_chunks(rng, shape):
-    return [rand_comp(rng, s) for s in shape]
+def rand_chunks(rng, shape, zeros=0.0):
+    """`zeros`: probability (per axis) of inserting zero-length chunks into a non-empty axis, e.g. (1, 0, 0), (2, 0, 1)"""
+    out = []
+    for s in shape:
+        c = rand_comp(rng, s)
+        if zeros and s > 0 and rng.random() < zeros:
+            for _ in range(rng.randint(1, 2)):
+                c.insert(rng.randint(0, len(c)), 0)
+        out.append(c)
+    return out
 
 
 def cumsum0(c):
@@ -214,6 +222,12 @@ def run_prog(p, lib):
         if lib == "np":
             return a * 2 + 1
         return a.map_blocks(_mb_affine, dtype=a.dtype)
+    if op == "mb2":  # two-input map_blocks (align_arrays=False): blocks are paired by block index, broadcasting
+        a = run_prog(p["a"], lib)
+        b = run_prog(p["b"], lib)
+        if lib == "np":
+            return a - 2 * b
+        return da.map_blocks(_sub2, a, b, dtype=np.result_type(a.dtype, b.dtype))
     if op == "mb_new":  # map_blocks(new_axis=ax)
         a = run_prog(p["a"], lib)
         ax = p["axis"]
@@ -269,6 +283,10 @@ def run_prog(p, lib):
 
 def _mb_affine(b):
     return b * 2 + 1
+
+
+def _sub2(a, b):
+    return a - 2 * b
 
 
 class _ExpandDims:
@@ -401,7 +419,9 @@ FLT_DT = ["f8", "f4"]
 class ProgGen:
     """weights: op name -> relative weight. `leaf_dtypes`: dtype pool of leaves."""
 
-    def __init__(self, rng, weights, leaf_dtypes=("i8", "i4", "f8"), maxdim=4, maxnd=3, allow_zero=False, allow_0d=True):
+    def __init__(self, rng, weights, leaf_dtypes=("i8", "i4", "f8"), maxdim=4, maxnd=3, allow_zero=False, allow_0d=True,
+                 zero_chunks=0.0):
+        self.zero_chunks = zero_chunks
         self.rng = rng
         self.weights = weights
         self.leaf_dtypes = list(leaf_dtypes)
@@ -421,7 +441,7 @@ class ProgGen:
     def leaf(self, shape=None, dtype=None):
         shape = self.shape() if shape is None else list(shape)
         self.salt += 1
-        return {"op": "leaf", "shape": shape, "chunks": rand_chunks(self.rng, shape),
+        return {"op": "leaf", "shape": shape, "chunks": rand_chunks(self.rng, shape, self.zero_chunks),
                 "dtype": dtype or self.rng.choice(self.leaf_dtypes), "salt": self.salt}
 
     def compatible_shape(self, shape):
@@ -555,6 +575,15 @@ class ProgGen:
             if kind in "bMm":
                 return None
             return {"op": "mb", "a": p}
+        if op == "mb2":
+            if kind in "bMm" or p["op"] != "leaf":
+                return None
+            # map_blocks does not unify chunks: the partner is a leaf whose axes have the same chunks as `p`'s or length 1
+            k = r.randint(0, nd)
+            sh = [s if r.random() < 0.6 else 1 for s in x.shape[nd - k:]]
+            q = self.leaf(sh, str(x.dtype))
+            q["chunks"] = [(p["chunks"][nd - k + j] if sh[j] == x.shape[nd - k + j] else [1]) for j in range(k)]
+            return {"op": "mb2", "a": p, "b": q} if r.random() < 0.5 else {"op": "mb2", "a": q, "b": p}
         if op in ("mb_new", "expand"):
             return {"op": op, "a": p, "axis": r.randint(0, nd)}
         if op == "squeeze":
